@@ -33,6 +33,10 @@ CLOSURES = {
                                        label='C12.expand.partition_predicate_is_is_import'),
     ('take_while_count', 'ident'): dict(ty='&Declaration', ret='bool', ens='ex_r == is_import_decl()(*$P)', ghost=['is_import_decl()'],
                                         label='C12.expand.partition_predicate_is_is_import'),
+    ('drain_filter_map_collect', 'ident'): dict(ty='Declaration', ret='Option<Declaration>',
+                                                ens='(ex_r is Some <==> is_public_item($P)) && (ex_r is Some ==> exported_as($P, ex_r->Some_0))',
+                                                ghost=['public_item()', 'exported()'],
+                                                label='C12.expand.importer_gets_the_export_of_each_declaration'),
     ('retain', 'ident'): dict(ty='&Declaration', ret='bool', ens='ex_r == not_import_decl()(*$P)', ghost=['not_import_decl()'],
                               label='C12.expand.processed_imports_are_what_is_filtered_out'),
     ('retain', 'tuple'): dict(ty='&(usize, usize)', ret='bool', ens='ex_r == not_self_edge()(*$P)', ghost=['not_self_edge()'],
